@@ -24,7 +24,7 @@ ALIAS = ['same', 'fullview', 'transposed', 'reversed', 'overlap', 'left-is-view'
 BIN = {'add': operator.add, 'sub': operator.sub, 'mul': operator.mul, 'div': operator.truediv, 'pow': operator.pow,
        'dot': algopy.dot, 'outer': algopy.outer, 'minimum': algopy.minimum, 'maximum': algopy.maximum}
 IOP = {'iadd': operator.iadd, 'isub': operator.isub, 'imul': operator.imul, 'idiv': operator.itruediv}
-REQUIRED = ['immutability:op', 'immutability:pb', 'immutability:tracer', 'alias:floordiv', 'alias:iouter', 'retained-inputs', 'subclass-operands', 'temporary-operands'] + ['alias:' + k for k in BIN] + ['alias:' + k for k in IOP]
+REQUIRED = ['immutability:op', 'immutability:pb', 'immutability:tracer', 'alias:floordiv', 'alias:iouter', 'retained-inputs', 'subclass-operands', 'temporary-operands', 'seeds'] + ['alias:' + k for k in BIN] + ['alias:' + k for k in IOP]
 
 _mon = None
 
@@ -59,6 +59,8 @@ def cases(tier, seed):
             out.append({'kind': 'retained', 'seed': case_seed('C14', seed, 'retained', D, P, k), 'params': {'D': D, 'P': P}})
         for k in range(3):
             out.append({'kind': 'iouter', 'seed': case_seed('C14', seed, 'iouter', D, P, k), 'params': {'D': D, 'P': P, 'which': k}})
+        for k in range(4):
+            out.append({'kind': 'seeds', 'seed': case_seed('C14', seed, 'seeds', D, P, k), 'params': {'D': D, 'P': P, 'which': k}})
         for k in range(3):
             out.append({'kind': 'subclass', 'seed': case_seed('C14', seed, 'subclass', D, P, k), 'params': {'D': D, 'P': P, 'which': k}})
         for k in range(2):
@@ -116,7 +118,7 @@ def _retained(ctx, p, rng):
     (the per-call snapshots of the monitor only see the arguments of the call in progress)"""
     from .. import progs
     D, P = p['D'], p['P']
-    cands = [q for q in progs.cat() if len(q.ins) == 1 and not q.maxD and not ({'refused', 'nopb', 'fancy', 'nonunique', 'buffer'} & q.tags)]
+    cands = [q for q in progs.cat() if len(q.ins) == 1 and not q.maxD and not ({'refused', 'nopb', 'fancy', 'augmented', 'nonunique', 'buffer'} & q.tags)]
     q = cands[int(rng.integers(len(cands)))]
     shape, dom = q.ins[0]
     w = None
@@ -155,6 +157,47 @@ def _retained(ctx, p, rng):
         if now.shape != snap.shape or not np.array_equal(now, snap, equal_nan=True):
             ctx.violation('retained-input-changed-by-later-call:%s' % role, {'program': q.name, 'role': role, 'D': D, 'P': P, 'objects_kept': [r_ for r_, _, _ in kept]}); return
     ctx.ok('retained-inputs', ('retained', q.name, D, P))
+
+
+def _seeds(ctx, p, rng):
+    """the adjoint seeds handed to CGraph.pullback belong to the caller: several dependents of which one is computed from another (so
+    that adjoints are accumulated into a dependent node during the sweep), a dependent that was the target of an item assignment,
+    seeds of the same / a narrower / a wider number type than the recorded values (float64 seeds on a single precision evaluation,
+    complex seeds for real outputs), seeds that are views"""
+    from algopy import CGraph, Function
+    D, P, which = p['D'], p['P'], p['which']
+    n = 3
+    x0 = gen.series_data(rng, D, P, (n,), 'R', 'random', False, 0.3)
+    xdt, sdt = [(np.float64, np.float64), (np.float32, np.float64), (np.float64, np.complex128), (np.float64, np.float32)][which]
+    try:
+        cg = CGraph()
+        x = Function(UTPM(x0.astype(xdt)))
+        y = algopy.sin(x) * x
+        z = algopy.exp(y * 0.5) + y                 # a dependent computed from another dependent
+        b = algopy.zeros(n, dtype=x)
+        b[...] = x * 2.0
+        b[0] = y[1] * x[0]                          # a dependent that is the target of item assignments
+        cg.trace_off()
+        cg.independentFunctionList = [x]; cg.dependentFunctionList = [y, z, b]
+    except Exception:
+        ctx.skip('unsupported:seeds'); return
+    for rep in range(2):
+        seeds = [UTPM((rng.normal(size=(D, P, n)) + (1j * rng.normal(size=(D, P, n)) if sdt is np.complex128 else 0)).astype(sdt)) for _ in range(3)]
+        big = rng.normal(size=(D, P, n + 2)).astype(sdt if sdt is not np.complex128 else np.float64)
+        if rep == 1:
+            seeds[0] = UTPM(big[:, :, 1:-1])        # a seed that is a view of a larger array of the caller
+        snaps = [s_.data.copy() for s_ in seeds]; bigsnap = big.copy()
+        try:
+            cg.pullback(seeds)
+        except Exception:
+            ctx.skip('unsupported:seeds:pullback'); continue
+        for i, (s_, sn) in enumerate(zip(seeds, snaps)):
+            if s_.data.shape != sn.shape or not np.array_equal(s_.data, sn, equal_nan=True):
+                ctx.violation('pullback-changed-the-seed:%s' % ['same-type', 'wider-than-single-precision-values', 'complex-seed-of-real-output', 'narrower'][which],
+                              {'D': D, 'P': P, 'dependent': ['y', 'z = g(y)', 'buffer'][i], 'values': np.dtype(xdt).name, 'seeds': np.dtype(sdt).name}); return
+        if not np.array_equal(big, bigsnap):
+            ctx.violation('pullback-changed-the-array-behind-a-seed-view', {'D': D, 'P': P}); return
+        ctx.ok('seeds', ('seeds', which, D, P, rep))
 
 
 def _bare(ctx, case):
@@ -238,6 +281,8 @@ def run_case(ctx, case):
         return _subclass(ctx, case['params'], gen.rng_of(case))
     if case['kind'] == 'bare':
         return _bare(ctx, case)
+    if case['kind'] == 'seeds':
+        return _seeds(ctx, case['params'], gen.rng_of(case))
     p = case['params']
     rng = gen.rng_of(case)
     D, P, shape, op = p['D'], p['P'], tuple(p['shape']), p['op']
